@@ -17,6 +17,7 @@ use std::panic::{AssertUnwindSafe, catch_unwind, resume_unwind};
 use std::sync::{Arc, Condvar, Mutex, MutexGuard};
 
 pub mod shim;
+pub mod simfs;
 
 pub type TaskId = usize;
 pub type ChanId = usize;
@@ -1094,10 +1095,14 @@ where
     }
     let sh2 = sh.clone();
     let slot2 = slot.clone();
+    let fs = simfs::current();
     let h = std::thread::Builder::new()
         .name(format!("dstsim-{}-{}", sh.sim_no, id))
         .stack_size(2 * 1024 * 1024)
-        .spawn(move || task_main(sh2, id, slot2, f))
+        .spawn(move || {
+            simfs::set(fs);
+            task_main(sh2, id, slot2, f)
+        })
         .expect("cannot spawn OS thread for simulated task");
     sh.os_handles.lock().unwrap().push(h);
     SimJoin {
@@ -1134,9 +1139,13 @@ where
     }
     let sh2 = sh.clone();
     let slot2 = slot.clone();
+    let fs = simfs::current();
     std::thread::Builder::new()
         .name(format!("dstsim-{}-{}", sh.sim_no, id))
-        .spawn_scoped(scope, move || task_main(sh2, id, slot2, f))
+        .spawn_scoped(scope, move || {
+            simfs::set(fs);
+            task_main(sh2, id, slot2, f)
+        })
         .expect("cannot spawn OS thread for simulated task");
     SimJoin {
         sh: sh.clone(),
